@@ -22,6 +22,23 @@ pub open spec fn level_mods(lvl: int) -> Modifiers {
     }
 }
 
+// The five facts, written from the property statements over the nine flags (NOT through the crate's predicates, so that
+// a changed predicate cannot redefine what "Shift held" means in a property formula).
+/// Shift: either shift key
+pub open spec fn shift(m: Modifiers) -> bool {
+    m.lshift || m.rshift
+}
+
+/// Ctrl: either ctrl key (the hidden Pause-Ctrl flag is not a Ctrl key)
+pub open spec fn ctrl(m: Modifiers) -> bool {
+    m.lctrl || m.rctrl
+}
+
+/// AltGr: right Alt, or left Alt together with Ctrl
+pub open spec fn altgr(m: Modifiers) -> bool {
+    m.ralt || (m.lalt && (m.lctrl || m.rctrl))
+}
+
 pub open spec fn uni(c: u32) -> DecodedKey {
     DecodedKey::Unicode(c as char)
 }
@@ -43,10 +60,10 @@ pub open spec fn c09_cell<L: KeyboardLayout>(l: L, k: KeyCode) -> bool {
     let base = l.spec_map(k, &m0(), HandleControl::Ignore);
     let letter = types_letter(l, k);
     // Ctrl (either) without Alt/AltGr, mapping on: the control character of the layout's letter, whatever Shift/CapsLock/NumLock/hidden flag
-    &&& (letter ==> forall|m: Modifiers| m.is_ctrl() && !m.lalt && !m.ralt ==> (#[trigger] l.spec_map(k, &m, HandleControl::MapLettersToUnicode))
+    &&& (letter ==> forall|m: Modifiers| ctrl(m) && !m.lalt && !m.ralt ==> (#[trigger] l.spec_map(k, &m, HandleControl::MapLettersToUnicode))
         == uni(((base->Unicode_0 as u32) - 0x60) as u32))
     // Ctrl not held, or a non-letter key: Ctrl handling changes nothing
-    &&& (forall|m: Modifiers| (!letter || !m.is_ctrl()) ==> (#[trigger] l.spec_map(k, &m, HandleControl::MapLettersToUnicode)) == l.spec_map(
+    &&& (forall|m: Modifiers| (!letter || !ctrl(m)) ==> (#[trigger] l.spec_map(k, &m, HandleControl::MapLettersToUnicode)) == l.spec_map(
         k,
         &m,
         HandleControl::Ignore,
@@ -72,13 +89,13 @@ pub open spec fn c10_cell<L: KeyboardLayout>(l: L, k: KeyCode) -> bool {
     // letter keys: CapsLock acts exactly as an inversion of Shift; other keys: CapsLock changes nothing
     forall|m: Modifiers, n: Modifiers, h: HandleControl|
         (m.capslock != n.capslock && m.lctrl == n.lctrl && m.rctrl == n.rctrl && m.lalt == n.lalt && m.ralt == n.ralt && m.rctrl2 == n.rctrl2
-            && m.numlock == n.numlock && (if letter { m.is_shifted() != n.is_shifted() } else { m.lshift == n.lshift && m.rshift == n.rshift }))
+            && m.numlock == n.numlock && (if letter { shift(m) != shift(n) } else { m.lshift == n.lshift && m.rshift == n.rshift }))
             ==> (#[trigger] l.spec_map(k, &m, h)) == (#[trigger] l.spec_map(k, &n, h))
 }
 
 // ---------------------------------------------------------------- C11
 pub open spec fn same_facts(m: Modifiers, n: Modifiers, numpad: bool) -> bool {
-    m.is_shifted() == n.is_shifted() && m.is_ctrl() == n.is_ctrl() && m.is_altgr() == n.is_altgr() && m.capslock == n.capslock && (numpad
+    shift(m) == shift(n) && ctrl(m) == ctrl(n) && altgr(m) == altgr(n) && m.capslock == n.capslock && (numpad
         ==> m.numlock == n.numlock)
 }
 
@@ -145,12 +162,12 @@ pub open spec fn c16_alias<L: KeyboardLayout>(l: L, k: KeyCode) -> bool {
 // ---------------------------------------------------------------- C03
 /// modifier states that select a level with nothing else interfering: CapsLock off, Ctrl not being mapped
 pub open spec fn selects(lvl: int, m: Modifiers, h: HandleControl) -> bool {
-    !m.capslock && !(h == HandleControl::MapLettersToUnicode && m.is_ctrl()) && (if lvl == 0 {
-        !m.is_shifted() && !m.is_altgr()
+    !m.capslock && !(h == HandleControl::MapLettersToUnicode && ctrl(m)) && (if lvl == 0 {
+        !shift(m) && !altgr(m)
     } else if lvl == 1 {
-        m.is_shifted() && !m.is_altgr()
+        shift(m) && !altgr(m)
     } else {
-        m.is_altgr() && !m.is_shifted()
+        altgr(m) && !shift(m)
     })
 }
 
